@@ -24,6 +24,7 @@ import (
 	"mcverif/props/c04"
 	"mcverif/rw"
 	"mcverif/sched"
+	"mcverif/vpoint"
 	"mcverif/vsync"
 )
 
@@ -329,6 +330,18 @@ func alphabet() []call {
 			sort.Strings(ids)
 			return strings.Join(ids, ",")
 		}},
+		{"ParseStream(spdx with malformed dates new to the process)", func(i int) string {
+			// tolerated bad input that the process has not met before (per-thread counters: nothing shared by the harness)
+			novelDates[i]++
+			bad := fmt.Sprintf("%02d/13/20%02d-%d", i, novelDates[i]%100, novelDates[i])
+			in := strings.Replace(c04.BaseSPDX, `"created": "`, `"created": "`+bad+" ", 1)
+			in = strings.Replace(in, `"releaseDate": "`, `"releaseDate": "`+bad+" ", 1)
+			d, err := reader.New().ParseStream(strings.NewReader(in))
+			if err != nil {
+				return "err"
+			}
+			return fmt.Sprintf("nodes=%d edges=%d", len(d.NodeList.Nodes), len(d.NodeList.Edges))
+		}},
 		{"ParseStream(rich spdx)", func(i int) string {
 			d, err := reader.New().ParseStream(strings.NewReader(c04.BaseSPDX))
 			if err != nil {
@@ -354,6 +367,8 @@ func alphabet() []call {
 		}},
 	}
 }
+
+var novelDates [8]int
 
 // sharedWriter: one writer value (CycloneDX 1.4, indent 3) that the shared-writer calls of all threads use.
 var sharedWriter = writer.New(writer.WithFormat(formats.CDX14JSON), writer.WithRenderOptions(&native.RenderOptions{Indent: 3}))
@@ -388,9 +403,14 @@ type scenario struct {
 	// calls[t] = call indices executed by thread t in program order
 	calls [][]int
 	fresh bool // start from the not-yet-initialised state (see resetState)
+	// points: the code-point seam is on - every function entry and loop iteration of the library is a scheduling point
+	points bool
 }
 
 func (s scenario) describe(al []call) []string {
+	if s.points {
+		defer func() {}()
+	}
 	var out []string
 	for t, cs := range s.calls {
 		var names []string
@@ -401,6 +421,9 @@ func (s scenario) describe(al []call) []string {
 	}
 	if s.fresh {
 		out = append(out, "start: first use (no writer call completed before)")
+	}
+	if s.points {
+		out = append(out, "scheduling points: every function entry and loop iteration of the library")
 	}
 	return out
 }
@@ -468,6 +491,30 @@ func Run(c *engine.Ctx) {
 	c.Group("pairs")
 	c.Bound("pairs", fmt.Sprintf("all %d unordered pairs of %d calls as 2-thread scenarios, every schedule with <= %d preemptions", len(scenarios), len(al), bound))
 	runScenarios(c, al, scenarios, bound)
+
+	// interleavings INSIDE calls: the code-point seam makes every function entry and loop iteration of the library a
+	// scheduling point; every schedule with one preemption, over the pairs of the parsing / writing / detection calls
+	if vpoint.Sites == 0 {
+		c.Selftest("seam_points", "false")
+		c.Note("code-point seam unavailable on this tree: interleavings inside calls are not explored (seam_points:false)")
+	} else {
+		c.Selftest("seam_points", fmt.Sprintf("true (sites=%d)", vpoint.Sites))
+		var inner []int
+		for i, k := range al {
+			if strings.HasPrefix(k.Name, "ParseStream(") || strings.HasPrefix(k.Name, "WriteStream(") || strings.HasPrefix(k.Name, "Sniff(tag-value)") || strings.HasPrefix(k.Name, "shared-writer.") {
+				inner = append(inner, i)
+			}
+		}
+		var scp []scenario
+		for x := 0; x < len(inner); x++ {
+			for y := x; y < len(inner); y++ {
+				scp = append(scp, scenario{calls: [][]int{{inner[x]}, {inner[y]}}, points: true})
+			}
+		}
+		c.Group("pairs-inside-calls")
+		c.Bound("pairs-inside-calls", fmt.Sprintf("all %d unordered pairs of the %d parsing / writing / detection calls with every function entry and loop iteration of the library as a scheduling point, every schedule with <= 1 preemption", len(scp), len(inner)))
+		runScenarios(c, al, scp, 1)
+	}
 
 	if !c.IsReplay() && !sharedFidelity(c, al) {
 		c.Selftest("first_use_reset_faithful", "false")
@@ -635,6 +682,8 @@ func runScenarios(c *engine.Ctx, al []call, scenarios []scenario, bound int) {
 			}
 			first := true
 			var firstKey string
+			vpoint.On = s.points
+			defer func() { vpoint.On = false }()
 			schedules = sched.Explore(bound, newBodies, func(x *sched.Exec) bool {
 				t.Alive()
 				t.Transitions(len(x.Points))
@@ -720,6 +769,9 @@ func confirmRace(s scenario, choices []int, sig string, history bool) int {
 		if s.fresh {
 			start = "fresh"
 		}
+		if s.points {
+			start += "+points"
+		}
 		hist := "no-history"
 		if history {
 			hist = "history"
@@ -784,8 +836,11 @@ func Aux(args []string) int {
 	al := alphabet()
 	_ = sched.NewRaceReports()
 	n := len(s.calls)
-	if len(args) > 2 && args[2] == "fresh" {
+	if len(args) > 2 && strings.HasPrefix(args[2], "fresh") {
 		s.fresh = true
+	}
+	if len(args) > 2 && strings.HasSuffix(args[2], "+points") {
+		s.points = true
 	}
 	if len(args) > 3 && args[3] == "history" {
 		// the same calls made once before, one thread after the other, by this (single) goroutine
@@ -807,7 +862,9 @@ func Aux(args []string) int {
 			}
 		}
 	}
+	vpoint.On = s.points
 	sched.Run(bodies, choices)
+	vpoint.On = false
 	rs := sched.NewRaceReports()
 	if len(rs) == 0 {
 		fmt.Fprintln(os.Stderr, "NORACE")
